@@ -16,7 +16,8 @@ pub fn spec() -> Spec {
         prop: "C17",
         level: "exploration",
         rule: "Self-consistency differential on one instance at block boundaries: eth_call(from, to, data) is asked, then the transaction with the same sender, target and data is executed next (inscription path: sender derived from the pkscript; signed path: the signer), and (success flag, return data) are compared using the receipt status and debug_traceTransaction output (traces on); for creations the simulated return data must equal eth_getCode of the created contract and the created address must be the one the simulation's nonce implies; eth_callMany of a sequence is compared with the same sequence executed in one block. Programs are state- and nonce-dependent (counter increments returning the new value, conditional reverts, writes returning the old value, factory CREATE/CREATE2 returning child addresses) and run in chain states reached by random histories (after reorgs too). Non-trivial = pair whose result depends on state or nonce; distinct by (program, state digest).",
-        assumptions: vec!["code that reads TIMESTAMP, PREVRANDAO, remaining gas or the current txid is excluded, as in the statement".into()],
+        assumptions: vec!["code that reads TIMESTAMP, PREVRANDAO, remaining gas or the current txid is excluded, as in the statement".into(),
+            "a signed raw transaction addressed to the zero address is a contract creation by the module's own convention (TxInfo::from_raw_transaction; tests/transact.rs deploys that way), so its simulation is eth_call without `to`; pairs that address the zero address as a plain call use the inscription form (brc20_call) only".into()],
         exhaustive: false,
         min_nontrivial: 2,
     }
@@ -88,7 +89,7 @@ fn one_case(ctx: &WorkerCtx, rep: &mut WorkerReport, case_seed: u64, boundary: b
     let mut uniq = 0u64;
     for i in 0..pairs {
         uniq += 1;
-        let pick = if base > 0 && (bed.d.next_height() == act || rng.chance(1, 2)) { 14 } else { rng.below(21) };
+        let pick = if base > 0 && (bed.d.next_height() == act || rng.chance(1, 2)) { 14 } else { rng.below(22) };
         let (name, to, data): (&str, Option<String>, Vec<u8>) = match pick {
             // a precompile that exists from Prague on (BLS12-381 G1ADD of two points at infinity):
             // the answer tells which rule set ran the code
@@ -108,6 +109,14 @@ fn one_case(ctx: &WorkerCtx, rep: &mut WorkerReport, case_seed: u64, boundary: b
                 seedb.iter().cycle().take(n).cloned().collect()
             }),
             // every environment word the statement does not exclude (block gas limit, coinbase, fees, chain id, ...)
+            // a plain call to the zero address (no code there): whatever the data looks like - also init code -
+            // it stays a call. Inscription form only: a SIGNED raw transaction addressed to the zero address
+            // is a creation by the module's own convention (TxInfo::from_raw_transaction, tests/transact.rs)
+            21 => ("call-zero-address", Some("0x0000000000000000000000000000000000000000".to_string()), match rng.below(3) {
+                0 => vec![0xfe],
+                1 => asm::tool_init(),
+                _ => rng.bytes(36),
+            }),
             18 => ("env-words", Some(envdump.clone()), vec![]),
             19 => ("deploy-env-stamped", None, asm::env_stamped_init()),
             12 => ("number-blockhash", Some(numhash.clone()), vec![]),
@@ -125,7 +134,7 @@ fn one_case(ctx: &WorkerCtx, rep: &mut WorkerReport, case_seed: u64, boundary: b
             10 => ("sload", Some(tool.clone()), asm::tool_call(asm::OP_SLOAD, &[asm::word_u64(rng.range(1, 3))], &[])),
             _ => ("deploy-garbage", None, rng.bytes(40)),
         };
-        let signed = i % 3 == 2;
+        let signed = i % 3 == 2 && name != "call-zero-address";
         // every fourth inscription pair comes from a sender the chain has never seen (nonce 0)
         let this_pk = if !signed && i % 4 == 1 { format!("5120{:056x}{:08x}", case_seed as u128, i) } else { sender_pk.clone() };
         let from = if signed { hist::addr_hex(&signer.addr) } else { hist::addr_hex(&hist::pk_address(&this_pk)) };
@@ -197,7 +206,7 @@ fn one_case(ctx: &WorkerCtx, rep: &mut WorkerReport, case_seed: u64, boundary: b
                     json!({"case_seed": case_seed, "network": net, "program": name, "signed": signed, "eth_call": sim_out, "executed": out, "receipt": rc}));
                 break;
             }
-            if ["inc", "cond", "sstore-old", "create-child", "create2-child", "nested-inc", "batch", "sload", "number-blockhash", "env-words", "sha256-of-huge-calldata"].contains(&name) {
+            if ["inc", "cond", "sstore-old", "create-child", "create2-child", "nested-inc", "batch", "sload", "number-blockhash", "env-words", "sha256-of-huge-calldata", "call-zero-address"].contains(&name) {
                 rep.nontrivial(format!("{}:{}:{}", name, signed, &out[out.len().saturating_sub(6)..]));
             }
             if name == "rule-set-probe" {
